@@ -1,95 +1,74 @@
-p = '/verif/harness/src/props/c15_rows.rs'
+import re
+# 1. docgen menus
+p = '/verif/harness/src/docgen.rs'
 s = open(p).read()
-s = s.replace('values = [date("2024-03-09T10:11:12+00:00"), date("2025-12-31T23:59:59+00:00")],', 'values = [date("2024-03-09T10:11:12+00:00"), date("2025-12-31T23:59:59+00:00"), date("2023-12-02T08:19:33+02:00"), date("2024-06-30T23:30:00-05:30")],')
-s = s.replace('values = [date("2024-03-16T10:11:12+00:00"), date("2026-01-07T23:59:59+00:00")],', 'values = [date("2024-03-16T10:11:12+00:00"), date("2026-01-07T23:59:59+00:00"), date("2023-12-09T08:19:33+02:00"), date("2024-07-07T23:30:00-05:30")],')
+s = s.replace('pub const FIRSTS: [&str; 9] = ["v", "v w", "é ü", "", "#x", ":x", "a: b", "x\\ty", "v  "];',
+              'pub const FIRSTS: [&str; 13] = ["v", "v w", "é ü", "", "#x", ":x", "a: b", "x\\ty", "v  ", "日本語 😀", "v\\u{a0}w\\t", "ends:", "\\u{202e}rtl"];')
+s = s.replace('pub const CONTS: [&str; 8] = ["", "w", "é", ".", "a:b", ":x", "-x", "<blank>"];',
+              'pub const CONTS: [&str; 10] = ["", "w", "é", ".", "a:b", ":x", "-x", "w  ", "😀 z\\tq", "<blank>"];')
+s = s.replace('pub const COLONS: [&str; 4] = [": ", ":", ":\\t", ":  "];', 'pub const COLONS: [&str; 5] = [": ", ":", ":\\t", ":  ", ":\\t "];')
+s = s.replace('const FIELD_MENUS: [usize; FIELD_SLOTS] = [3, 7, 4, 9, 8, 4, 8, 4];', 'const FIELD_MENUS: [usize; FIELD_SLOTS] = [3, 7, 5, 13, 10, 4, 10, 4];')
 open(p, 'w').write(s)
 
-# ---- C16: prior contents without a final newline, holding only the later-declared half of the present fields
-p = '/verif/harness/src/props/c16.rs'
+# 5. relgen profile menus
+p = '/verif/harness/src/relgen.rs'
 s = open(p).read()
-s = s.replace('''        _ => {
-            for f in sp.fields.iter() {
-                prior.push_str(&render_para(&[(f.name, other(f))]));
-            }
-        }
-    }
-    let be = if lossless''', '''        3 => {
-            for f in sp.fields.iter() {
-                prior.push_str(&render_para(&[(f.name, other(f))]));
-            }
-        }
-        _ => {
-            // only the later-declared half of the present fields (other values), after a foreign field and a comment,
-            // and NO final newline: the earlier-declared fields get appended, then the existing ones are rewritten
-            prior.push_str("X-Foreign-First: keep 1\\n");
-            foreign.push("X-Foreign-First: keep 1".into());
-            if lossless {
-                prior.push_str("# a comment\\n");
-                foreign.push("# a comment".into());
-            }
-            let half = fs.len() / 2;
-            for (f, _) in &fs[half..] {
-                prior.push_str(&render_para(&[(f.name, other(f))]));
-            }
-            if prior.ends_with('\\n') {
-                prior.pop();
-            }
-        }
-    }
-    let be = if lossless''')
-s = s.replace('for kind in 0..4 {', 'for kind in 0..5 {')
-s = s.replace('''    /// foreign fields (and comments on the lossless back-end), 3 every own optional field present), back-end''', '''    /// foreign fields (and comments on the lossless back-end), 3 every own optional field present, 4 only the later-declared
-    /// half of the present fields after a foreign field, without final newline), back-end''')
-s = s.replace('update_paragraph onto 4 prior contents x 2 back-ends', 'update_paragraph onto 5 prior contents x 2 back-ends')
+s = s.replace('pub const PROFILES: [&[&[&str]]; 5] = [&[], &[&["x"]], &[&["!x"]], &[&["x", "y"]], &[&["!x", "y"], &["z"]]];',
+              'pub const PROFILES: [&[&[&str]]; 8] = [&[], &[&["x"]], &[&["!x"]], &[&["x", "y"]], &[&["!x", "y"], &["z"]], &[&["x", "!y"]], &[&["!x", "!y", "z"]], &[&["x"], &["y", "!z"], &["!w"]]];')
+s = s.replace('const REL_MENUS: [usize; REL_SLOTS] = [2, 3, 6, 3, 5, 5, 4, 3, 4, 4, 3];', 'const REL_MENUS: [usize; REL_SLOTS] = [2, 3, 6, 3, 5, 8, 4, 3, 4, 4, 3];')
+open(p, 'w').write(s)
+p = '/verif/harness/src/props/c10.rs'
+s = open(p).read()
+s = s.replace('product(&[3, 6, 3, 5, 5], &mut |pv| {', 'product(&[3, 6, 3, 5, 8], &mut |pv| {')
+s = s.replace('"single_relation_parts_product": 2 * 3 * 6 * 3 * 5 * 5', '"single_relation_parts_product": 2 * 3 * 6 * 3 * 5 * 8')
 open(p, 'w').write(s)
 
-# ---- C02: near-valid values in typed documents
-p = '/verif/harness/src/props/c02.rs'
+# 2. C04 values / keys for thorough
+p = '/verif/harness/src/props/c04.rs'
 s = open(p).read()
-s = s.replace('''    let menus: Vec<usize> = fields.iter().map(|_| 2 + GARBAGE.len()).collect();''', '''    // near-valid values: pieces of the field's own valid values (first / last item, value cut short, value with a tail)
-    let near: Vec<Vec<String>> = fields
-        .iter()
-        .map(|(_, fs)| {
-            let mut out: Vec<String> = vec![];
-            for v in fs.valid.iter().take(2) {
-                let parts: Vec<&str> = v.split(|c: char| c == ',' || c == ' ' || c == ':' || c == '\\n').filter(|x| !x.is_empty()).collect();
-                if let Some(first) = parts.first() {
-                    out.push(first.to_string());
-                }
-                if let Some(last) = parts.last() {
-                    out.push(last.to_string());
-                }
-                let mut cut = v.to_string();
-                cut.pop();
-                out.push(cut);
-                out.push(format!("{},", v));
-            }
-            out.sort();
-            out.dedup();
-            out.retain(|x| !fs.valid.contains(&x.as_str()) && !x.is_empty());
-            out.truncate(6);
-            out
-        })
-        .collect();
-    let menus: Vec<usize> = fields.iter().enumerate().map(|(i, _)| 2 + GARBAGE.len() + near[i].len()).collect();''')
-s = s.replace('''            for ((fpi, fs), choice) in fields.iter().zip(v.iter()) {
-                if *fpi != pi {
-                    continue;
-                }
-                let val: Option<&str> = match *choice {
-                    0 => Some(fs.valid[0]),
-                    1 => None,
-                    g => Some(GARBAGE[g - 2]),
-                };''', '''            for (fidx, ((fpi, fs), choice)) in fields.iter().zip(v.iter()).enumerate() {
-                if *fpi != pi {
-                    continue;
-                }
-                let val: Option<&str> = match *choice {
-                    0 => Some(fs.valid[0]),
-                    1 => None,
-                    g if g - 2 < GARBAGE.len() => Some(GARBAGE[g - 2]),
-                    g => Some(near[fidx][g - 2 - GARBAGE.len()].as_str()),
-                };''')
-s = s.replace('fields absent or replaced by one of 7 garbage values', 'fields absent or replaced by one of 7 garbage values or up to 6 near-valid values (pieces of the valid values of the field: first / last item, value cut short, value with a trailing comma)')
+s = s.replace('Tier::Thorough => &["x", "x\\ny", "é", ":c\\nd"],', 'Tier::Thorough => &["x", "x\\ny", "é  ", ":c\\nd", "#h\\ny"],')
+s = s.replace('Tier::Quick => &["x", "x\\ny", ":c\\nd"],', 'Tier::Quick => &["x", "x\\ny", ":c\\nd", "#h  "],')
+open(p, 'w').write(s)
+
+# 11. C07 formatter that indents its lines
+p = '/verif/harness/src/props/c07.rs'
+s = open(p).read()
+s = s.replace('''fn fmt_words(_k: &str, v: &str) -> String {
+    v.split_whitespace().collect::<Vec<_>>().join("\\n")
+}''', '''fn fmt_words(_k: &str, v: &str) -> String {
+    v.split_whitespace().collect::<Vec<_>>().join("\\n")
+}
+/// multi-line output that starts on the next line and carries its own (odd) indentation and trailing blanks
+fn fmt_indented(_k: &str, v: &str) -> String {
+    let lines: Vec<String> = v.split('\\n').map(|l| l.trim()).filter(|l| !l.is_empty()).map(|l| format!("   {} ", l)).collect();
+    if lines.len() > 1 {
+        format!("\\n{}", lines.join("\\n"))
+    } else {
+        lines.concat()
+    }
+}''')
+s = s.replace('''        0 => None,
+        1 => Some(&fmt_identity),
+        _ => Some(&fmt_words),
+    };
+    p.wrap_and_sort(indentation(c), c.iel, oneliner(c), se, fv)''', '''        0 => None,
+        1 => Some(&fmt_identity),
+        2 => Some(&fmt_words),
+        _ => Some(&fmt_indented),
+    };
+    p.wrap_and_sort(indentation(c), c.iel, oneliner(c), se, fv)''')
+s = s.replace('''            let fv: Option<&dyn Fn(&str, &str) -> String> = match c.fmt {
+                0 => None,
+                1 => Some(&fmt_identity),
+                _ => Some(&fmt_words),
+            };''', '''            let fv: Option<&dyn Fn(&str, &str) -> String> = match c.fmt {
+                0 => None,
+                1 => Some(&fmt_identity),
+                2 => Some(&fmt_words),
+                _ => Some(&fmt_indented),
+            };''')
+s = s.replace('    vec![4, 2, 3, 3, 3, 3]', '    vec![4, 2, 3, 3, 3, 4]')
+s = s.replace('pub fmt: usize,      // 0..3: None, identity, one word per line', 'pub fmt: usize,      // 0..4: None, identity, one word per line, re-indented lines starting on the next line')
+s = s.replace('648 settings', '864 settings').replace('x 3 formatters)', 'x 4 formatters)').replace('"settings_per_document": 648', '"settings_per_document": 864')
 open(p, 'w').write(s)
 print('ok')
